@@ -457,3 +457,11 @@ def run(repo: Repo, rep: Report, tier: str) -> None:
     share_rules(repo, rep, tier, "c18", {"C18.R1": "C17.R13"}, "a structure whose generated __eq__ / __hash__ / __bool__ / __init__ were not rebuilt after its field list changed compares and constructs by the old fields")
     share_rules(repo, rep, tier, "c07", {"C07.R4": "C17.R14"}, "a wrong-sized array that is dumped shifts every field behind it")
     codec_fold_rule(repo, rep, "C17.R15")
+    from .c07 import array_size_text_fold_rule
+
+    array_size_text_fold_rule(repo, rep, "C17.R16")
+    from .c05 import text_array_fold_rule
+    from .c11 import rebuild_fold_rule
+
+    rebuild_fold_rule(repo, rep, "C17.R17")
+    text_array_fold_rule(repo, rep, "C17.R18")
